@@ -1,6 +1,6 @@
 //! direct oracles: the properties themselves, evaluated on the implementation only (no model involved)
 use crate::fmt::{self, evs_s, outcome, Outcome, Ty};
-use crate::{err_name, hex, pc, CacheSt, Ctx, Rec, B};
+use crate::{err_name, hex, pc, CacheSt, Ctx, Rec, WeakKey, B};
 use bitcoin::consensus::{deserialize_partial, encode, serialize};
 use bitcoin::hashes::Hash;
 use bitcoin_slices::{bitcoin, bsl, Error, Parse, ParseResult, Visit};
@@ -1114,11 +1114,11 @@ pub fn cins_line(ctx: &mut Ctx, k: u64, v: &[u8]) -> String {
         st.keys.push(k);
     }
     // observations before
-    let before: Vec<(u64, Option<Vec<u8>>)> = st.keys.iter().map(|x| (*x, st.cache.get(x).map(|s| s.to_vec()))).collect();
+    let before: Vec<(u64, Option<Vec<u8>>)> = st.keys.iter().map(|x| (*x, st.cache.get(&WeakKey(*x)).map(|s| s.to_vec()))).collect();
     let len_before = st.cache.len();
     let full_before = st.cache.full();
     let layout_before = st.layout();
-    let r = pc(|| st.cache.insert(k, &v));
+    let r = pc(|| st.cache.insert(WeakKey(k), &v));
     let rs = match &r {
         Err(_) => "panic".to_string(),
         Ok(Ok(n)) => format!("ok:{}", n),
@@ -1155,7 +1155,7 @@ pub fn cins_line(ctx: &mut Ctx, k: u64, v: &[u8]) -> String {
             if !(rs == want || (was_retrievable && v.len() > st.cap && rs == "toolarge")) {
                 fails.push(format!("C13:error-is-{}-expected-{}", rs, want));
             }
-            let after: Vec<(u64, Option<Vec<u8>>)> = st.keys.iter().map(|x| (*x, st.cache.get(x).map(|s| s.to_vec()))).collect();
+            let after: Vec<(u64, Option<Vec<u8>>)> = st.keys.iter().map(|x| (*x, st.cache.get(&WeakKey(*x)).map(|s| s.to_vec()))).collect();
             if after != before || st.cache.len() != len_before || st.cache.full() != full_before || st.layout() != layout_before {
                 fails.push("C13:failed-insert-changed-state".into());
             }
@@ -1171,7 +1171,7 @@ pub fn cins_line(ctx: &mut Ctx, k: u64, v: &[u8]) -> String {
             st.log.push((k, v.to_vec()));
             inserted_ok = true;
             // C06 read-your-write: the inserted key returns the inserted bytes immediately
-            if pc(|| st.cache.get(&k).map(|s| s.to_vec())) != Ok(Some(v.to_vec())) {
+            if pc(|| st.cache.get(&WeakKey(k)).map(|s| s.to_vec())) != Ok(Some(v.to_vec())) {
                 fails.push(format!("C06:read-your-write-key{}", k));
             }
         }
@@ -1181,7 +1181,7 @@ pub fn cins_line(ctx: &mut Ctx, k: u64, v: &[u8]) -> String {
     let mut live: Vec<bool> = vec![false; n_log];
     let mut retrievable = 0usize;
     for key in st.keys.clone() {
-        let got = pc(|| st.cache.get(&key).map(|s| s.to_vec()));
+        let got = pc(|| st.cache.get(&WeakKey(key)).map(|s| s.to_vec()));
         let Ok(got) = got else {
             fails.push("C06:get-panics".into());
             continue;
@@ -1198,7 +1198,7 @@ pub fn cins_line(ctx: &mut Ctx, k: u64, v: &[u8]) -> String {
                 None => fails.push(format!("C06:key{}-returns-bytes-but-was-never-inserted", key)),
             }
         }
-        if pc(|| st.cache.contains(&key)) != Ok(got.is_some()) {
+        if pc(|| st.cache.contains(&WeakKey(key))) != Ok(got.is_some()) {
             fails.push("C13:contains!=get".into());
         }
     }
